@@ -1,12 +1,15 @@
 #!/bin/sh
 # Assemble DESIGN.md from its parts and the generated appendix tables.
+# REUSE_SEEDED / REUSE_REGRESS / REUSE_REFACTORS=<file> take the output of an earlier tools/runmut.py run
+# (made with the same checker build) instead of running the three corpora again.
 cd "$(dirname "$0")/.."
 python3 - <<'PY'
 import json,os,re,glob,subprocess
 def table_c():
     res={}
     for env,dirn in (({}, 'seeded'),({'SEEDDIR':'/verif/regress'},'regress')):
-        out=subprocess.run(['./tools/runmut.py'],env=dict(os.environ,**env),capture_output=True,text=True).stdout
+        reuse=os.environ.get('REUSE_'+dirn.upper())
+        out=open(reuse).read() if reuse else subprocess.run(['./tools/runmut.py'],env=dict(os.environ,**env),capture_output=True,text=True).stdout
         for l in out.splitlines():
             m=re.match(r'(\S+)\s+\[(\S+)\]\s+(CAUGHT|missed)\s*(\S*)',l)
             if m: res[dirn+'/'+m.group(1)]=(m.group(3),m.group(4))
@@ -23,7 +26,8 @@ def table_c():
             rows.append(f"| {d}/{sid} | {meta.get('property')} | {s} | {need} | {c[1] if c[0]=='CAUGHT' else '**missed**'} |")
     return '\n'.join(rows)
 def table_d():
-    out=subprocess.run(['./tools/runmut.py'],env=dict(os.environ,SEEDDIR='/verif/refactors'),capture_output=True,text=True).stdout
+    reuse=os.environ.get('REUSE_REFACTORS')
+    out=open(reuse).read() if reuse else subprocess.run(['./tools/runmut.py'],env=dict(os.environ,SEEDDIR='/verif/refactors'),capture_output=True,text=True).stdout
     res={}
     for l in out.splitlines():
         m=re.match(r'(\S+)\s+\[(\S+)\]\s+(CAUGHT|missed)\s*(\S*)',l)
